@@ -18,6 +18,7 @@ import itertools
 import multiprocessing as mp
 import os
 
+import numpy as np
 import sympy as sp
 from sympy.core.function import AppliedUndef
 
@@ -148,7 +149,19 @@ def side_order(ix, cfg):
     log: list[str] = []
 
     def side(name):
-        return Model(f"bc-{name}", {"set_ghost_cells": lambda d, args=None: log.append(name), "send_ghost_cells": lambda d, args=None: log.append("send-" + name), "__isinstance__": lambda c: False})
+        return Model(
+            f"bc-{name}",
+            {
+                "set_ghost_cells": lambda d, args=None: log.append(name),
+                "send_ghost_cells": lambda d, args=None: log.append("send-" + name),
+                "__isinstance__": lambda c: False,
+                "grid": Model("g", {"num_axes": 1, "periodic": [False], "shape": (3,)}),
+                "axis": 0,
+                "periodic": False,
+                "rank": 0,
+                "upper": name == "high",
+            },
+        )
 
     it = Interp(ix, overrides=std_overrides(ix, cfg))
     axis_cls = ix.cls(AXIS, "BoundaryAxisBase")
@@ -602,6 +615,110 @@ def binary_operator_routes(rep: Report, ix):
     rep.floor("binary-operator route groups (ranks x dim x conjugate)", len(groups), 27)
 
 
+def axis_level_routes(rep: Report, ix, compiled_order):
+    """(h) the interpreted ghost-cell route at the level of one axis: for every class of
+    pde/grids/boundaries/axis.py the resolved `set_ghost_cells` is interpreted (npsem) on a small
+    padded array of distinct symbols.  The two sides are stand-ins carrying the per-side
+    semantics that rules (c)/C02 establish for the local classes (periodic: sign * opposite
+    valid layer, written on the valid range of the other axes; other pairs: an uninterpreted
+    function of the adjacent valid layer).  The array left behind must equal the one obtained by
+    applying the same stand-ins in the order in which the compiled route chains the sides, the
+    caller's `args` must reach both sides, and MPI sides must send before anything is set."""
+    from .. import npsem as ns
+
+    axis_cls = ix.cls(AXIS, "BoundaryAxisBase")
+    classes = [c for c in ix.subclasses(axis_cls) if c.module.rel == AXIS]
+    rep.floor("axis-level boundary classes", len(classes), 3)
+    ARGS = ns.Opaque("ARGS")
+    n_scen = 0
+    for c in classes:
+        fi = c.find_method("set_ghost_cells")
+        if fi is None:
+            raise AnalysisError(f"{c.ref}: no set_ghost_cells resolved")
+        periodic = c.name == "BoundaryPeriodic" or any(b.name == "BoundaryPeriodic" for b in c.mro())
+        where = f"{fi.module.rel}::{fi.qualname}"
+        rep.saw("axis-level ghost-cell routes", f"{c.name} -> {where}")
+        bad: dict[str, str] = {}
+        for num_axes, axis in ((1, 0), (2, 0), (2, 1), (3, 1)):
+            for rank in (0, 1):
+                for flip in ((False, True) if periodic else (False,)):
+                    for mpi in ((False,) if periodic else (False, True)):
+                        n_scen += 1
+                        scen = f"axes={num_axes} axis={axis} rank={rank}" + (" flip_sign" if flip else "") + (" mpi" if mpi else "")
+                        shape = (2,) * rank + (5,) * num_axes
+                        log: list = []
+
+                        def make_side(name, upper, data_ref):
+                            F = sp.Function(f"bc_{name}")
+                            sign = -1 if flip else 1
+
+                            def write(data_full, *, args=None):
+                                log.append((name, "set", args is ARGS, data_full is data_ref[0]))
+                                w = [slice(None)] * rank + [slice(1, -1)] * num_axes
+                                r = list(w)
+                                w[rank + axis] = -1 if upper else 0
+                                if periodic:
+                                    r[rank + axis] = 1 if upper else -2
+                                    data_full[tuple(w)] = sign * data_full[tuple(r)]
+                                else:
+                                    r[rank + axis] = -2 if upper else 1
+                                    src = data_full[tuple(r)]
+                                    if isinstance(src, np.ndarray):
+                                        val = np.empty(src.shape, dtype=object)
+                                        for i in np.ndindex(src.shape):
+                                            val[i] = F(src[i])
+                                    else:
+                                        val = F(src)
+                                    data_full[tuple(w)] = val
+
+                            def send(data_full, *, args=None):
+                                log.append((name, "send", args is ARGS, data_full is data_ref[0]))
+
+                            attrs = {"set_ghost_cells": write, "upper": upper, "axis": axis, "flip_sign": flip, "__kind__": ("_MPIBC", "BCBase") if mpi else ("BCBase",)}
+                            if mpi:
+                                attrs["send_ghost_cells"] = send
+                            return ns.Stub(f"side-{name}", **attrs), write
+
+                        ref_box: list = [None]
+                        low, w_low = make_side("low", False, ref_box)
+                        high, w_high = make_side("high", True, ref_box)
+                        grid = ns.Stub("grid", num_axes=num_axes, shape=(3,) * num_axes, dim=num_axes)
+                        me = ns.Stub("axis", low=low, high=high, grid=grid, axis=axis, periodic=periodic, flip_sign=flip, rank=rank)
+                        data = ns.sym_array("d", shape)
+                        ref_box[0] = data
+                        sem = ns.NpSem(where=where)
+                        scope = {"_MPIBC": ns.KindRef("_MPIBC"), "np": ns.NP}
+                        try:
+                            sem.run_function(fi.node, scope, args=(me, data), kwargs={"args": ARGS})
+                        except ns.Raised as e:
+                            bad.setdefault("raises", f"{scen}: ends in `{e}`")
+                            continue
+                        events = list(log)
+                        # the compiled route chains the per-side setters in `compiled_order`
+                        expect = ns.sym_array("d", shape)
+                        ref_box[0] = expect
+                        log.clear()
+                        for side in compiled_order:
+                            {"low": w_low, "high": w_high}[side](expect, args=ARGS)
+                        diff = ns.arrays_equal(data, expect)
+                        if diff:
+                            bad.setdefault("differs", f"{scen}: padded array differs from the chained per-side setters at {diff[0]}")
+                        sets = [e for e in events if e[1] == "set"]
+                        if not all(e[2] for e in events):
+                            bad.setdefault("args", f"{scen}: the caller's `args` does not reach {[e[0] for e in events if not e[2]]}")
+                        if not diff and sorted(e[0] for e in sets) != ["high", "low"]:
+                            pass  # equal arrays decide; the count is informational for hand-written overrides
+                        if mpi:
+                            first_set = min((i for i, e in enumerate(events) if e[1] == "set"), default=len(events))
+                            sends = [i for i, e in enumerate(events) if e[1] == "send"]
+                            if len(sends) != 2 or any(i > first_set for i in sends):
+                                bad.setdefault("mpi-send", f"{scen}: MPI sides must each send their layer before any ghost cell is set; events {[(e[0], e[1]) for e in events]}")
+        rep.oblige(f"axis-level ghost cells: {c.name}.set_ghost_cells == chained per-side setters", not bad, bad)
+        for role, msg in bad.items():
+            rep.violation("C03.axis-level-route", f"{where}::{c.name}::{role}", f"interpreted ghost-cell route of {c.name} ({where}): {msg}", line=fi.node.lineno)
+    rep.floor("axis-level ghost-cell scenarios", n_scen, 40)
+
+
 def check(tier: str) -> Report:
     rep = Report("C03", tier, "other", "sibling agreement of extracted tables / effect summaries; call-convention and prange dependence rules")
     rep.explanation = (
@@ -697,6 +814,9 @@ def check(tier: str) -> Report:
     rep.oblige("order of axes equal in interpreted and compiled route", ok, order)
     if not ok:
         rep.violation("C03.axis-order", f"{NB}::NumbaBackend.make_ghost_cell_setter::order", f"axes are served in order {order['numba-axes']} by the compiled route but {order['python-axes']} by the interpreted one")
+    # ------------------------------------------------------------------ (h)
+    if sorted(order["numba-sides"]) == ["high", "low"]:
+        axis_level_routes(rep, ix, order["numba-sides"])
     # ------------------------------------------------------------------ (d)
     summ = apply_summaries(ix, cfg)
     rep.floor("operator-application bodies summarised", len(summ), 6)
